@@ -90,6 +90,18 @@ def rings_of(parts):
     return [np.array(r, float) for shell, holes in parts for r in [shell] + holes]
 
 
+def overlapping(chains):
+    """Do two segments share a piece of positive length?"""
+    seg = [(np.array(a), np.array(b) - np.array(a)) for ch in chains for a, b in zip(ch, ch[1:])]
+    for i, (a, u) in enumerate(seg):
+        for c, w in seg[:i]:
+            if max(np.linalg.norm(np.cross(u, c - a)), np.linalg.norm(np.cross(u, w))) < 1e-9:
+                s, t = sorted(((c - a) @ u / (u @ u), (c + w - a) @ u / (u @ u)))
+                if min(t, 1) - max(s, 0) > 1e-9:
+                    return True
+    return False
+
+
 def make_leaf(t, kind, near, tag):
     import scenic.core.regions as R
     import shapely.geometry as sg
@@ -171,6 +183,8 @@ def make_leaf(t, kind, near, tag):
             if len(pts) < 2:
                 pts.append((pts[0][0] + size, pts[0][1] + 0.5 * size, pts[0][2]))
             chains.append(pts)
+        while overlapping(chains):  # a piece covered twice has no agreed measure (shapely's set operations merge it)
+            chains = chains[:-1] if len(chains[-1]) == 2 else chains[:-1] + [chains[-1][:-1]]
         if kind == "polyline":
             ls = [sg.LineString([p[:2] for p in ch]) for ch in chains]
             reg = R.PolylineRegion(points=chains[0]) if len(ls) == 1 else R.PolylineRegion(polyline=sg.MultiLineString(ls))
